@@ -134,14 +134,14 @@ mutual
       let b := compileAlt env es ok ko false false a.st
       ⟨a.code ++ [.goto ok] ++ env.lbl next ++ [.restore ok] ++ b.code, b.st, b.labelLast⟩
   /-- The cases of a `TypeUnorderedAlternate`; the last element is the `default:` body. -/
-  def compileCases (env : CEnv) : List (List Sym) → List Expr → (sw i : Nat) → (done : Nat) → CSt → COut
+  def compileCases (env : CEnv) : List KeySet → List Expr → (sw i : Nat) → (done : Nat) → CSt → COut
     | _, [], _, _, _, st => ⟨[], st, false⟩
     | _, [e], sw, i, done, st =>
       let b := compile env e done false false st
       ⟨[.slabel sw i] ++ b.code ++ (if b.labelLast then [.brk sw] else []) ++ [.sjmp sw], b.st, false⟩
     | ks, e :: es, sw, i, done, st =>
       let keys := ks.headD []
-      let b := compile env e done (!env.dry) (!env.dry && keys.length > 1) st
+      let b := compile env e done (!env.dry) (!env.dry && keys.card > 1) st
       let r := compileCases env ks.tail es sw (i + 1) done b.st
       ⟨[.slabel sw i] ++ b.code ++ (if b.labelLast then [.brk sw] else []) ++ [.sjmp sw] ++ r.code,
         r.st, false⟩
